@@ -471,12 +471,23 @@ func (r *replica) scheme(name string, chainLen int) (leaderrotation.LeaderRotati
 	return leaderrotation.New(kit.Logger("lr"), r.cfg, r.bc, r.vs, name, chainLen)
 }
 
-func (r *replica) commit(i int) { r.vs.UpdateCommittedBlock(r.blocks[i]) }
+// commit makes block i the committed head the way consensus.Committer does: the view states learn the block, then the store
+// is pruned up to it (the history-based schemes read the committed chain back from that store).
+func (r *replica) commit(i int) {
+	r.vs.UpdateCommittedBlock(r.blocks[i])
+	// PruneToHeight visits every view between the old and the new prune height: only chains that start at a small view are
+	// pruned (a chain that starts near 2^32 or 2^63 exercises the schemes' arithmetic, not the store)
+	if r.blocks[i].View() < 1<<16 {
+		r.bc.PruneToHeight(r.blocks[i], r.blocks[i].View())
+	}
+}
 
 func newPlainReplica(self hotstuff.ID, n int, seed int64) (*replica, error) {
 	cfg := plainConfig(self, n, core.WithSharedRandomSeed(seed))
 	log := kit.Logger("r")
-	bc := blockchain.New(eventloop.New(log, 16), log, testutil.NewMockSender(self))
+	snd := testutil.NewMockSender(self)
+	bc := blockchain.New(eventloop.New(log, 16), log, snd)
+	snd.AddBlockchain(bc) // a fetch of a block the replica does not hold asks stores that do not hold it either: it fails, it does not panic
 	vs, err := protocol.NewViewStates(bc, cert.NewAuthority(cfg, bc, crypto.NewECDSA(cfg)))
 	if err != nil {
 		return nil, err
